@@ -74,6 +74,9 @@ def try_setting(case, ctx, d):
     out = os.path.join(d, "o.sgz")
     if os.path.exists(out):
         os.remove(out)
+    # the container and integer type the block dimensions arrive in (a tuple of ints, a list, an int64 array as
+    # 2 ** np.array([...]) gives, NumPy scalars)
+    bs_given = {"list": list, "np64": lambda b: np.array(b, dtype=np.int64), "intp": lambda b: tuple(np.intp(x) for x in b)}.get(case.get("bs_form"), tuple)(bs)
     resolved = None
     try:
         resolved = (define_blockshape_2d if two_d else define_blockshape_3d)(bpv, bs)
@@ -96,13 +99,13 @@ def try_setting(case, ctx, d):
                 raise exc if isinstance(exc, Exception) else RuntimeError(f"exit {code}")
         elif two_d:
             path, src = tiny_2d_segy(ctx.work)
-            conv.segy_convert(path, out, bpv, bs, header_detection="strip")
+            conv.segy_convert(path, out, bpv, bs_given, header_detection="strip")
         elif route == "segy":
             path, src = tiny_3d_segy(ctx.work)
-            conv.segy_convert(path, out, bpv, bs, header_detection="strip")
+            conv.segy_convert(path, out, bpv, bs_given, header_detection="strip")
         else:
             src = gen.make_values((5, 6, 9), "gauss", 6)
-            conv.numpy_convert(src, out, bpv, bs)
+            conv.numpy_convert(src, out, bpv, bs_given)
     except Exception as e:
         if sentinel is not None:
             if not os.path.exists(out) or open(out, "rb").read() != sentinel:
@@ -216,12 +219,15 @@ def shard_main(ctx):
         for k, (bpv, bs) in enumerate(grid(two_d)):
             items.append({"check": "grid", "bpv": bpv, "bs": list(bs), "two_d": two_d,
                           "route": "segy" if (k % 5 == 0 and not two_d) else "numpy", "convert_anyway": k % 97 == 0})
+    forms = ["tuple", "list", "tuple", "np64", "tuple", "intp"]
     for rate, bs in gen.SETTINGS_3D:
         for r, b in spellings(rate, bs):
-            items.append({"check": "valid", "bpv": r, "bs": list(b), "two_d": False, "route": "numpy", "must_accept": True})
+            items.append({"check": "valid", "bpv": r, "bs": list(b), "two_d": False, "route": "numpy", "must_accept": True,
+                          "bs_form": forms[len(items) % len(forms)]})
     for rate, bs in gen.SETTINGS_2D:
         for r, b in spellings(rate, bs):
-            items.append({"check": "valid", "bpv": r, "bs": list(b), "two_d": True, "route": "segy", "must_accept": True})
+            items.append({"check": "valid", "bpv": r, "bs": list(b), "two_d": True, "route": "segy", "must_accept": True,
+                          "bs_form": forms[len(items) % len(forms)]})
     # the same through the command line: every valid setting in its integer spellings must be accepted, and a
     # sample of the grid must fall in the same class as through the API
     is_int = lambda v: isinstance(v, (int, np.integer)) and not isinstance(v, bool)
